@@ -80,20 +80,29 @@ def gcfg_of(line):
     f = lambda v: None if v == 'none' else (b'' if v == '-' else bytes.fromhex(v))
     return dict(icon=f(kv['icon']), fname=f(kv['fname']), hwid=f(kv['hwid']) or b'')
 def oracle(name, ib, mb, meta):
-    fails = []; mtu = 1500; own = OWN0; g = dict(icon=None, fname=None, hwid=b''); acc = {}
+    fails = []; mtu = 1500; own = OWN0; g = dict(icon=None, fname=None, hwid=b''); acc = {}; icon_asked = icon_open = False
     for i, b in enumerate(ib):
         if b.op.startswith('cfg 0'):
             kv = dict(t.split('=', 1) for t in b.op.split()[2:]); mtu = int(kv.get('mtu', mtu)); own = bytes.fromhex(kv.get('mac', own.hex()))
             if kv.get('mtufail') == '1' or mtu == 0: mtu = 1500 if 'c08' != 'c06' else -1   # getter fails: the responder assumes 1500 (an Emit is dropped)
-        elif b.op.startswith('cfg g'): g = gcfg_of(b.op)
+        elif b.op.startswith('cfg g'):
+            g2 = gcfg_of(b.op)
+            # the platform's icon replaced in mid-session, after it was asked for: whether the responder serves the bytes it
+            # fetched first or the new ones is not prescribed (it caches them until the next topology Reset)
+            if icon_asked and g2['icon'] != g['icon']: icon_open = True
+            g = g2
         if not b.op.startswith('frame 0 ') or b.fault: continue
         ctx, fr = frame_of(b); d = dec(fr + bytes(max(0, 36 - len(fr))))
+        if d['tos'] == 0 and d['opc'] == 8: icon_asked = icon_open = False
         if d['tos'] not in (0, 1) or d['opc'] != 0x0B: continue
         sn = sends_of(b)
         if d['seq'] == 0:
             if sn: fails.append((i, 'QueryLargeTlv with sequence number 0 was answered'))
             continue
         typ = d['body'][0]; off = (d['body'][2] << 8) | d['body'][3]
+        if typ == 14:
+            icon_asked = True
+            if icon_open: continue
         data = {14: g['icon'] or b'', 17: g['fname'] or b'', 19: hwid_value(g['hwid'])}.get(typ, b'')
         P = mtu - 34
         q = qlt_fields(sn[0][2]) if len(sn) == 1 else None
